@@ -49,7 +49,7 @@ def strategy():
         'front': st.sampled_from([None, None, 'method', 'nb', 'same-nb', 'same-nb']),
         'front_mode': st.sampled_from(WMODES),
         'decoy_methods': st.sampled_from([None, None, ['POST'], ['GET'], ['PUT', 'DELETE']]),
-        'prime': st.sampled_from([None, None, 'PATCH', 'DELETE', 'PUT', 'OPTIONS']),
+        'prime': st.sampled_from([None, None, 'PATCH', 'DELETE', 'PUT', 'OPTIONS', 'GET', 'POST']),
         'segs': st.lists(seg, min_size=3, max_size=3),
         'nmulti': st.integers(1, 3),
         'mutation': st.sampled_from(MUTATIONS),
@@ -181,7 +181,9 @@ def body(case, ctx):
     rc = dict(case, _path=path)
     if case.get('prime'):
         # an earlier request to the same path with another method: it must not change how this one is answered
-        call_environ(app, make_environ(path, case['prime'], query if all(ord(c) < 128 for c in query) else '', script_name=script))
+        # (with the same query string, or with another one: nothing of the earlier request may come back in the later Location)
+        pq = query if (all(ord(c) < 128 for c in query) and len(query) % 2) else 'zq_prime=1&x=%2F'
+        call_environ(app, make_environ(path, case['prime'], pq, script_name=script))
         ctx.requests += 1
     del _REC[:]
     env = make_environ(path, method, query, script_name=script)
